@@ -15,7 +15,7 @@ from drivers import _conc2_launch as LA
 from vf import tracecheck
 from vf.core import Ctx
 from vf.graph import dump_graph
-from vf.tlc import MachineryError, render_cfg, require_ok, run_tlc, sany
+from vf.tlc import MachineryError, Raw, render_cfg, require_ok, run_tlc, sany
 
 META = {
     "engine": "conc",
@@ -78,18 +78,20 @@ def _ia_jobs(ctx: Ctx, wd, pool) -> dict:
     ctx.extra["idle_accept_design_followed_by_code"] = flags
     jobs = {"flags": flags, "n_mc": n_mc,
             "intended": pool.submit(run_tlc, wd, "IdleAccept", render_cfg(
-                constants={"MaxConns": n_mc, "FixClearOnAccept": True, "FixStaleTimer": True},
-                invariants=["TypeOK", "CountSane"] + IA_CLAUSES), coverage=True, cfg_name="IA_intended.cfg", workers=4)}
+                constants={"MaxConns": n_mc, "MaxParSet": Raw("{0,1}" if quick else "{0,1,2}"), "FixClearOnAccept": True,
+                           "FixStaleTimer": True},
+                invariants=["TypeOK", "CountSane", "PermitsSane"] + IA_CLAUSES), coverage=True, cfg_name="IA_intended.cfg", workers=4)}
     for n in ([2] if quick else [2, 3]):
-        jobs[f"graph{n}"] = pool.submit(dump_graph, wd, "IdleAccept", render_cfg(constants={"MaxConns": n, **flags}),
+        jobs[f"graph{n}"] = pool.submit(dump_graph, wd, "IdleAccept", render_cfg(constants={"MaxConns": n, "MaxParSet": Raw("{0,1}"), **flags}),
                                         name=f"ia{n}", workers=4)
     if not quick:
         jobs["shipped"] = pool.submit(run_tlc, wd, "IdleAccept", render_cfg(
-            constants={"MaxConns": 2, "FixClearOnAccept": False, "FixStaleTimer": False},
+            constants={"MaxConns": 2, "MaxParSet": Raw("{0,1}"), "FixClearOnAccept": False, "FixStaleTimer": False},
             invariants=IA_CLAUSES), cfg_name="IA_shipped.cfg")
         for v, inv in (("vac1", "NeverExits"), ("vac2", "NeverLate")):
             jobs[v] = pool.submit(run_tlc, wd, "IdleAccept", render_cfg(
-                constants={"MaxConns": 2, "FixClearOnAccept": True, "FixStaleTimer": True}, invariants=[inv]),
+                constants={"MaxConns": 2, "MaxParSet": Raw("{0,1}"), "FixClearOnAccept": True, "FixStaleTimer": True},
+                invariants=[inv]),
                 cfg_name=f"IA_{v}.cfg")
     return jobs
 
@@ -103,18 +105,18 @@ def _ia_replay(ctx: Ctx, wd, pool, jobs) -> dict:
         ctx.add_tlc(f"IdleAccept graph MaxConns={n} {flags}", gr)
         require_ok(gr, "IdleAccept state graph")
         if n == 2 and quick:
-            key = lambda s, lab, d: (lab, s["lpc"], s["shutdownReq"], s["connCount"], s["timer"], _fz(s["tst"]))  # noqa: E731
+            key = lambda s, lab, d: (lab, s["maxPar"], s["permits"], s["lpc"], s["shutdownReq"], s["connCount"], s["timer"], _fz(s["tst"]))  # noqa: E731
         elif n == 2:
             key = None
         else:
-            key = lambda s, lab, d: (lab, s["lpc"], s["shutdownReq"], s["connCount"], s["timer"], _fz(s["tst"]))  # noqa: E731
+            key = lambda s, lab, d: (lab, s["maxPar"], s["permits"], s["lpc"], s["shutdownReq"], s["connCount"], s["timer"], _fz(s["tst"]))  # noqa: E731
         paths = g.edge_cover_paths(ctx.rng, key=key)
         if not quick and n == 2:
             more, _ = g.all_paths(40, 600)
             paths += more
         for nodes, labs in paths:
             beh = g.path_to_behaviour(nodes, labs)
-            res = IA.run_path(beh, n)
+            res = IA.run_path(beh, n, max_par=g.state(nodes[0])["maxPar"])
             sched = [b["action"] + ("(" + ",".join(b["args"]) + ")" if b["args"] else "") for b in beh]
             runs.append(res)
             metas.append({"n": n, "source": "tlc-graph", "schedule": sched})
@@ -125,7 +127,7 @@ def _ia_replay(ctx: Ctx, wd, pool, jobs) -> dict:
                 ctx.drift.append({"spec": "IdleAccept", "thread_errors": res["errors"]})
     for i in range(80 if quick else 700):
         n = 2 if i % 2 == 0 else 3
-        res = IA.run_random(ctx.rng, n, serve_raises=(1,) if i % 5 == 0 else ())
+        res = IA.run_random(ctx.rng, n, serve_raises=(1,) if i % 5 == 0 else (), max_connections=ctx.rng.choice([None, None, 1, 2]))
         sched = [f"{e['a']}{e['c'] or e['t'] or ''}{':' + e['acc'] if e['acc'] else ''}" for e in res["trace"]]
         runs.append(res)
         metas.append({"n": n, "source": "random-walk", "schedule": sched})
@@ -133,12 +135,12 @@ def _ia_replay(ctx: Ctx, wd, pool, jobs) -> dict:
     ctx.sample({"spec": "IdleAccept", "schedule": metas[len(metas) // 3]["schedule"],
                 "observable_history": [f"{e['e']}{e['c'] or e['t'] or ''}" for e in runs[len(metas) // 3]["mon"]]})
     # TLC decides: monitor over the observable histories; Trace for conformance to the model
-    tcfg = {"MaxConns": 3, "FixClearOnAccept": False, "FixStaleTimer": False}   # switches are per-step in the trace spec
+    tcfg = {"MaxConns": 3, "MaxParSet": Raw("{0,1,2}"), "FixClearOnAccept": False, "FixStaleTimer": False}   # switches are per-step in the trace spec
     return {"runs": runs, "metas": metas,
             "mon": pool.submit(tracecheck.validate, ctx, wd, "IdleAcceptMonitor", [{"ev": r["mon"]} for r in runs],
                                spec="MSpec", name="IdleAcceptMonitor", chunk=4000),
             "trace": pool.submit(tracecheck.validate, ctx, wd, "IdleAcceptTrace",
-                                 [{"ev": [{k: v for k, v in e.items() if k != "h"} for e in r["trace"]]} for r in runs],
+                                 [{"mp": r["mp"], "ev": [{k: v for k, v in e.items() if k != "h"} for e in r["trace"]]} for r in runs],
                                  constants=tcfg, name="IdleAcceptTrace", chunk=4000)}
 
 
@@ -159,7 +161,7 @@ def _ia_finish(ctx: Ctx, jobs, rep) -> None:
         for clause in mv["bad"]:
             ctx.violation(clause, {"spec": "IdleAccept", "cause": _ia_cause(r["trace"])},
                           {"schedule": m["schedule"], "source": m["source"], "observable_history": r["mon"],
-                           "ops": [[e["a"], e["c"] or e["t"], e["acc"]] for e in r["trace"]]})
+                           "mp": r["mp"], "ops": [[e["a"], e["c"] or e["t"], e["acc"]] for e in r["trace"]]})
     ctx.traces_validated += accepted
     ctx.extra["idle_accept_runs"] = len(runs)
     ctx.extra["idle_accept_traces_accepted"] = accepted
@@ -186,8 +188,12 @@ def _la_cause(trace: list[dict]) -> str:
     return "other"
 
 
+_LA_FULL = {"HashedSet": Raw("{TRUE,FALSE}"), "NoiseSet": Raw("{0,1}"), "GcInit": Raw('{"start"}')}
+
+
 def _la_key(s, lab, d):
-    return (lab.split("(")[0], s["lk"] != 0, s["path"] != 0, _vals(s["wst"]), _vals(s["pc"]), _fz(d["ino"]))
+    return (lab, s["hashed"], s["gpc"], s["meta"], s["lk"] != 0, s["path"] != 0, _vals(s["wst"]), _vals(s["pc"]),
+            _vals(s["noise"]), _fz(d["ino"]))
 
 
 def _la_jobs(ctx: Ctx, wd, pool) -> dict:
@@ -197,22 +203,22 @@ def _la_jobs(ctx: Ctx, wd, pool) -> dict:
     ctx.extra["launcher_design_followed_by_code"] = cal
     jobs = {"cal": cal, "n_mc": n_mc,
             "intended": pool.submit(run_tlc, wd, "Launcher", render_cfg(
-                constants={"NLaunch": n_mc, "FixUnlinkFirst": True, "InodeReuse": True},
+                constants={"NLaunch": n_mc, "FixUnlinkFirst": True, "InodeReuse": True, **_LA_FULL},
                 invariants=["TypeOK", "LockSane", "NoLaunchFails"] + LA_CLAUSES), coverage=True,
                 cfg_name="LA_intended.cfg", workers=4)}
     for n in ([2] if quick else [2, 3]):
         jobs[f"graph{n}"] = pool.submit(dump_graph, wd, "Launcher", render_cfg(
-            constants={"NLaunch": n, "FixUnlinkFirst": cal["FixUnlinkFirst"], "InodeReuse": True}), name=f"la{n}", workers=4)
+            constants={"NLaunch": n, "FixUnlinkFirst": cal["FixUnlinkFirst"], "InodeReuse": True, **_LA_FULL}), name=f"la{n}", workers=4)
     if not quick:
         jobs["shipped_noreuse"] = pool.submit(run_tlc, wd, "Launcher", render_cfg(
-            constants={"NLaunch": 3, "FixUnlinkFirst": False, "InodeReuse": False},
+            constants={"NLaunch": 3, "FixUnlinkFirst": False, "InodeReuse": False, **_LA_FULL},
             invariants=["TypeOK", "LockSane", "NoLaunchFails"] + LA_CLAUSES), cfg_name="LA_shipped0.cfg")
         jobs["shipped"] = pool.submit(run_tlc, wd, "Launcher", render_cfg(
-            constants={"NLaunch": 3, "FixUnlinkFirst": False, "InodeReuse": True},
+            constants={"NLaunch": 3, "FixUnlinkFirst": False, "InodeReuse": True, **_LA_FULL},
             invariants=LA_CLAUSES), cfg_name="LA_shipped1.cfg")
-        for v, inv in (("vac1", "NeverReuses"), ("vac2", "NeverRespawns")):
+        for v, inv in (("vac1", "NeverReuses"), ("vac2", "NeverRespawns"), ("vac3", "NeverCollects")):
             jobs[v] = pool.submit(run_tlc, wd, "Launcher", render_cfg(
-                constants={"NLaunch": 2, "FixUnlinkFirst": True, "InodeReuse": True}, invariants=[inv]),
+                constants={"NLaunch": 2, "FixUnlinkFirst": True, "InodeReuse": True, **_LA_FULL}, invariants=[inv]),
                 cfg_name=f"LA_{v}.cfg")
     return jobs
 
@@ -222,11 +228,11 @@ def _la_replay(ctx: Ctx, wd, pool, jobs) -> dict:
     cal = jobs["cal"]
     runs, metas = [], []
     t0 = time.time()
-    for n, budget in ([(2, 12.0)] if quick else [(2, 40.0), (3, 80.0)]):
+    for n, budget in ([(2, 30.0)] if quick else [(2, 40.0), (3, 80.0)]):
         gr, g = jobs[f"graph{n}"].result()
         ctx.add_tlc(f"Launcher graph NLaunch={n} FixUnlinkFirst={cal['FixUnlinkFirst']}", gr)
         require_ok(gr, "Launcher state graph")
-        res, cov, tot = LA.online_walks(g, n, ctx.rng, max_walks=100000, key=None if n == 2 else _la_key,
+        res, cov, tot = LA.online_walks(g, n, ctx.rng, max_walks=100000, key=None if (n == 2 and not quick) else _la_key,
                                         deadline=time.time() + budget)
         ctx.extra[f"launcher_graph_edge_classes_covered_N{n}"] = f"{cov}/{tot}"
         for r in res:
@@ -240,7 +246,7 @@ def _la_replay(ctx: Ctx, wd, pool, jobs) -> dict:
                 ctx.drift.append({"spec": "Launcher", "thread_errors": r["errors"]})
     for i in range(80 if quick else 600):
         n = 2 if i % 4 == 0 else 3
-        r = LA.run_random(ctx.rng, n)
+        r = LA.run_random(ctx.rng, n, hashed=ctx.rng.random() < 0.7, gc=ctx.rng.random() < 0.4)
         runs.append(r)
         sched = [f"{e['a']}{e['k']}" for e in r["trace"]]
         metas.append({"n": n, "source": "random-walk", "schedule": sched})
@@ -257,8 +263,10 @@ def _la_replay(ctx: Ctx, wd, pool, jobs) -> dict:
     return {"runs": runs, "metas": metas, "smoke": smoke,
             "mon": pool.submit(tracecheck.validate, ctx, wd, "LauncherMonitor", [{"ev": r["mon"]} for r in runs],
                                spec="MSpec", name="LauncherMonitor", chunk=4000),
-            "trace": pool.submit(tracecheck.validate, ctx, wd, "LauncherTrace", [{"ev": r["trace"]} for r in runs],
-                                 constants={"NLaunch": 3, "FixUnlinkFirst": cal["FixUnlinkFirst"], "InodeReuse": True},
+            "trace": pool.submit(tracecheck.validate, ctx, wd, "LauncherTrace", [{**r["header"], "ev": r["trace"]} for r in runs],
+                                 constants={"NLaunch": 3, "FixUnlinkFirst": cal["FixUnlinkFirst"], "InodeReuse": True,
+                                            "HashedSet": Raw("{TRUE,FALSE}"), "NoiseSet": Raw("{0,1}"),
+                                            "GcInit": Raw('{"start","off"}')},
                                  name="LauncherTrace", chunk=4000)}
 
 
@@ -287,7 +295,9 @@ def _la_finish(ctx: Ctx, wd, jobs, rep) -> None:
         for clause in mv["bad"]:
             ctx.violation(clause, {"spec": "Launcher", "cause": _la_cause(r["trace"])},
                           {"schedule": m["schedule"], "source": m["source"], "observable_history": r["mon"],
-                           "launch_results": r["results"], "n": m["n"], "ops": [[e["a"], e["k"]] for e in r["trace"]]})
+                           "launch_results": r["results"], "n": m["n"], "hashed": r["header"]["hashed"],
+                           "gc": r["header"]["gpc0"] != "off",
+                           "ops": [[e["a"], e["k"], (e["nz"][-1] if e["nz"] else 0)] for e in r["trace"]]})
     ctx.traces_validated += accepted
     ctx.extra["launcher_runs"] = len(runs)
     ctx.extra["launcher_traces_accepted"] = accepted
@@ -301,7 +311,7 @@ def _la_finish(ctx: Ctx, wd, jobs, rep) -> None:
         s = ctx.add_tlc("Launcher shipped exit order + inode reuse (documented counterexample)", jobs["shipped"].result())
         ctx.extra["launcher_shipped_design_violates"] = s.violated
         ctx.extra["launcher_shipped_design_counterexample"] = [a for a, _ in s.counterexample]
-        for v in ("vac1", "vac2"):
+        for v in ("vac1", "vac2", "vac3"):
             if jobs[v].result().violated is None:
                 raise MachineryError(f"Launcher vacuity guard {v} was not violated")
 
@@ -310,7 +320,7 @@ def _replay(ctx: Ctx, wd, rec: dict) -> None:
     """./check C33 --replay F: re-execute the recorded operations on the real code and let the monitor judge again."""
     d, spec = rec["detail"], rec["sig"]["spec"]
     if spec == "IdleAccept":
-        with IA.IdleWorld() as w:
+        with IA.IdleWorld(max_connections=d.get("mp") or None) as w:
             for a, k, acc in d["ops"]:
                 {"Arrive": lambda: w.arrive(), "Loop": lambda: w.loop(acc), "H": lambda: w.handler(k),
                  "TFire": lambda: w.fire(k), "TRun": lambda: w.timer_run(k)}[a]()
@@ -319,9 +329,9 @@ def _replay(ctx: Ctx, wd, rec: dict) -> None:
         v = tracecheck.validate(ctx, wd, "IdleAcceptMonitor", [{"ev": mon}], spec="MSpec")[0]
         cause = _ia_cause(trace)
     else:
-        with LA.LaunchWorld(d["n"]) as w:
-            for a, k in d["ops"]:
-                w.step(a, k)
+        with LA.LaunchWorld(d["n"], hashed=d.get("hashed", True), gc=d.get("gc", False)) as w:
+            for a, k, *nz in d["ops"]:
+                w.step(a, k, noise=nz[0] if nz else None)
             mon, trace = list(w.mon), list(w.trace)
         v = tracecheck.validate(ctx, wd, "LauncherMonitor", [{"ev": mon}], spec="MSpec")[0]
         cause = _la_cause(trace)
